@@ -570,13 +570,17 @@ class VariantPaths(productmd.common.MetadataBase):
         self.identity = parser.option_lookup(lookup, None)
 
     def deserialize_0_3(self, parser):
+        sections = [
+            "variant-%s" % self._variant.uid,
+            "variant-%s" % self._variant.id,
+            "addon-%s" % self._variant.uid,
+            "addon-%s" % self._variant.id,
+        ]
+        # read all paths from the section of this variant, a path it does not
+        # have must not be taken from the section of a variant named like its ID
+        sections = [i for i in sections if parser.has_section(i)][:1]
         for field in self._fields:
-            lookup = [
-                ("variant-%s" % self._variant.uid, field),
-                ("variant-%s" % self._variant.id, field),
-                ("addon-%s" % self._variant.uid, field),
-                ("addon-%s" % self._variant.id, field),
-            ]
+            lookup = [(section, field) for section in sections]
             value = parser.option_lookup(lookup, None)
             setattr(self, field, value)
 
